@@ -157,7 +157,7 @@ def job_storage(job, int_p=False):
 COLS = ("Bo", "Bg", "Bw", "Rs", "Rv", "mu_o", "mu_g", "mu_w", "So")
 
 
-def replay_tabulated(model, n=3, order="ascending", node=1, sw_zero=False):
+def replay_tabulated(model, n=3, order="ascending", node=1, sw_zero=False, rebuilt=False):
     """from_table on the model's table (rows in the given order): tabulated alpha vs lambda/c evaluated with
     independently built (sorted) interpolators."""
     import warnings
@@ -190,6 +190,15 @@ def replay_tabulated(model, n=3, order="ascending", node=1, sw_zero=False):
         warnings.simplefilter("ignore")
         with np.errstate(all="ignore"):
             try:
+                if rebuilt:
+                    # the same dict was used for an earlier build with other fluid columns and then edited in place (a
+                    # history-matching loop that adjusts the table between builds)
+                    final = {c: given[c].copy() for c in COLS if c != "So"}
+                    for j_, c in enumerate(final):
+                        given[c][:] = final[c] * (1.5 + 0.25 * j_)
+                    fp.FlowPropertiesTwoPhase.from_table(given, krp, {k: m[k] for k in RHO}, m["phi"], m["Sw"], float(ps[node]))
+                    for c in final:
+                        given[c][:] = final[c]
                 obj = fp.FlowPropertiesTwoPhase.from_table(given, krp, {k: m[k] for k in RHO}, m["phi"], m["Sw"], float(ps[node]))
             except Exception as ex:  # noqa: BLE001
                 return True, {"what": f"from_table raised {ex!r} on an admissible table in {order} row order", "inputs": m}
@@ -198,11 +207,11 @@ def replay_tabulated(model, n=3, order="ascending", node=1, sw_zero=False):
             want = np.array([float(fp.alpha_multiphase(float(pg[j]), float(given["So"][j]), m["phi"], m["Sw"], ref_pvt, ref_kr)) for j in range(n)])
     ok = np.isfinite(want)
     bad = bool(np.any(np.abs(got[ok] - want[ok]) > 1e-7 * np.abs(want[ok])))
-    return bad, {"what": f"from_table ({order} rows): tabulated alpha {got.tolist()} vs total mobility / storage derivative of the same table "
+    return bad, {"what": f"from_table ({order} rows{', second build after the same dict was edited in place' if rebuilt else ''}): tabulated alpha {got.tolist()} vs total mobility / storage derivative of the same table "
                          f"{want.tolist()}", "inputs": m}
 
 
-def job_tabulated(job, n, order, node=1, sw_zero=False):
+def job_tabulated(job, n, order, node=1, sw_zero=False, rebuilt=False):
     """`FlowPropertiesTwoPhase.from_table(...).pvt_props['alpha']` row by row against lambda/c of the same table, rows
     listed in ascending or descending pressure order (lab reports list pressures top-down; the library's interpolators
     sort, so both are the same table)."""
@@ -236,10 +245,18 @@ def job_tabulated(job, n, order, node=1, sw_zero=False):
     dom = dom + rdom
     ref = {k: vs[k] for k in RHO}
     idx = list(range(n)) if order == "ascending" else list(range(n - 1, -1, -1))
-    rp = (replay_tabulated, {"n": n, "order": order, "node": node, "sw_zero": sw_zero})
+    rp = (replay_tabulated, {"n": n, "order": order, "node": node, "sw_zero": sw_zero, "rebuilt": rebuilt})
+    old = {c: [fresh(f"old_{c}{k}", pos=True) for k in range(n)] for c in COLS if c != "So"} if rebuilt else {}
 
     def run():
         tab = {k: SymArray([v[j] for j in idx], "f8") for k, v in cols.items()}
+        if rebuilt:
+            # the same dict served an earlier build with other fluid columns and was then edited in place
+            for c, vals in old.items():
+                tab[c][:] = SymArray([vals[j] for j in idx], "f8")
+            mod.FlowPropertiesTwoPhase.from_table(tab, krt, ref, vs["phi"], vs["Sw"], ps[node])
+            for c in old:
+                tab[c][:] = SymArray([cols[c][j] for j in idx], "f8")
         obj = mod.FlowPropertiesTwoPhase.from_table(tab, krt, ref, vs["phi"], vs["Sw"], ps[node])
         ref_pvt = {c: SS.Interp1d(SymArray(list(ps), "f8"), SymArray(list(cols[c]), "f8"), fill_value="extrapolate") for c in COLS}
         ref_pvt.update(ref)
@@ -250,7 +267,7 @@ def job_tabulated(job, n, order, node=1, sw_zero=False):
     res = paths(job, run, dom, max_paths=64)
     normal = reached = 0
     for k, pr in enumerate(res):
-        tag = f"tabulated[{n} rows,{order}{',Sw=0.0' if sw_zero else ''}]"
+        tag = f"tabulated[{n} rows,{order}{',Sw=0.0' if sw_zero else ''}{',second build after the same dict was edited in place' if rebuilt else ''}]"
         if pr.exc is not None:
             if isinstance(pr.exc, SS.NonMonotoneAbscissae):
                 continue            # a scaled pseudopressure that is not monotone: C15's subject
@@ -278,12 +295,13 @@ def job_tabulated(job, n, order, node=1, sw_zero=False):
 
 
 # concrete replays run on the real code when the changed code uses something the engine does not model (harness.finish)
-FALLBACK = [(replay_c, {}), (replay_c, {"mode": "constant"}), (replay_c, {"mode": "phi"}), (replay_lambda, {}), (replay_tabulated, {}), (replay_tabulated, {"order": "descending"})]
+FALLBACK = [(replay_c, {}), (replay_c, {"mode": "constant"}), (replay_c, {"mode": "phi"}), (replay_lambda, {}), (replay_tabulated, {}), (replay_tabulated, {"order": "descending"}), (replay_tabulated, {"rebuilt": True})]
 
 
 def jobs(tier):
     out = [("storage", job_storage), ("storage-int-pressure", lambda j: job_storage(j, True)), ("tabulated-3-asc", lambda j: job_tabulated(j, 3, "ascending")),
-           ("tabulated-3-desc", lambda j: job_tabulated(j, 3, "descending")), ("tabulated-3-asc-no-water", lambda j: job_tabulated(j, 3, "ascending", 1, True))]
+           ("tabulated-3-desc", lambda j: job_tabulated(j, 3, "descending")), ("tabulated-3-asc-no-water", lambda j: job_tabulated(j, 3, "ascending", 1, True)),
+           ("tabulated-3-asc-rebuilt", lambda j: job_tabulated(j, 3, "ascending", 1, False, True))]
     if tier != "quick":
         out += [("tabulated-4-asc", lambda j: job_tabulated(j, 4, "ascending", 2)), ("tabulated-4-desc", lambda j: job_tabulated(j, 4, "descending", 2))]
     return out
